@@ -237,6 +237,11 @@ func createPromise(tags map[string]string, promiseCmd *t_aio.CreatePromiseComman
 
 		if err != nil {
 			slog.Warn("failed to match promise", "cmd", promiseCmd, "err", err)
+
+			// Without an answer from the router we do not know whether the
+			// promise needs a task, creating it anyway could store a routed
+			// promise without its task.
+			return nil, t_api.NewError(t_api.StatusAIOMatchError, err)
 		}
 
 		if taskCmd != nil && (err != nil || !completion.Router.Matched) {
